@@ -129,3 +129,45 @@ def stock_cases(exts=('.xlsx', '.json', '.raw', '.m')):
             if f.endswith(exts):
                 out.append(os.path.join(dp, f))
     return out
+
+
+# ---------------------------------------------------------------------------------------------
+# generic row-level access: any loaded system <-> {model: [row dict, ...]}
+# ---------------------------------------------------------------------------------------------
+
+def rows_of(ss, vin=True):
+    """Input rows of every populated model, in stored order, as plain Python values."""
+    import numpy as np
+    out = {}
+    for name, mdl in ss.models.items():
+        if mdl.n == 0:
+            continue
+        d = mdl.as_dict(vin=vin)
+        rows = []
+        for k in range(mdl.n):
+            row = {}
+            for f, col in d.items():
+                if f == 'uid':
+                    continue
+                v = col[k]
+                if isinstance(v, np.generic):
+                    v = v.item()
+                row[f] = v
+            rows.append(row)
+        out[name] = rows
+    return out
+
+
+def system_from_rows(rows, rc=None, order=None, model_order=None, setup=True, **kw):
+    """Build a System by adding ``rows`` ({model: [row]}) in the given per-model order."""
+    ss = new_system(rc, **kw)
+    names = list(model_order) if model_order else list(rows)
+    for name in names:
+        rr = rows[name]
+        seq = order.get(name) if order and name in order else range(len(rr))
+        for k in seq:
+            row = {f: v for f, v in rr[k].items() if not (isinstance(v, float) and v != v)}
+            ss.add(name, row)
+    if setup:
+        ss.setup()
+    return ss
